@@ -128,6 +128,8 @@ type Engine struct {
 	cur      *Thread
 	aborting bool
 	preempts int
+	pins      map[int]*Term // term id -> constant it is known to equal on this path
+	substMemo map[int]*Term
 	pendingEnd   *pathEnd
 	pendingPanic *targetPanic
 
@@ -138,6 +140,7 @@ type Engine struct {
 	runtimeErrT types.Type
 	anyOrder    bool
 	clockPinned bool
+	fmtLenient  bool
 	keepTimers  bool
 	jsonHavoc   func(e *Engine, fr *frame, data Slice, dst Iface) Value
 	syncMaps    map[*Backing]map[int]*MapObj
@@ -189,6 +192,138 @@ func (e *Engine) addPC(c *Term) {
 		return
 	}
 	e.solver.Assert(c)
+	e.learn(c)
+}
+
+// learn records equalities implied by a path constraint so that later terms fold
+// to constants without a solver call.
+func (e *Engine) learn(c *Term) {
+	added := false
+	var rec func(c *Term, val bool)
+	rec = func(c *Term, val bool) {
+		if c.IsConst() {
+			return
+		}
+		if _, ok := e.pins[c.ID]; !ok {
+			e.pins[c.ID] = e.tb.Bool(val)
+			added = true
+		}
+		switch c.Op {
+		case OpNot:
+			rec(c.A[0], !val)
+		case OpAnd:
+			if val {
+				rec(c.A[0], true)
+				rec(c.A[1], true)
+			}
+		case OpOr:
+			if !val {
+				rec(c.A[0], false)
+				rec(c.A[1], false)
+			}
+		case OpEq:
+			if val {
+				a, b := c.A[0], c.A[1]
+				if a.IsConst() {
+					a, b = b, a
+				}
+				if b.IsConst() && !a.IsConst() {
+					e.pinTerm(a, b)
+					added = true
+				}
+			}
+		}
+	}
+	rec(c, true)
+	if added {
+		e.substMemo = map[int]*Term{}
+	}
+}
+
+func (e *Engine) pinTerm(a, k *Term) {
+	if _, ok := e.pins[a.ID]; ok {
+		return
+	}
+	e.pins[a.ID] = k
+	// see through extensions: zext(x) == k  =>  x == k (when it fits)
+	if (a.Op == OpZExt || a.Op == OpSExt) && a.A[0].S.K == KBV {
+		in := a.A[0]
+		if a.Op == OpZExt && k.C <= mask(in.S.W) {
+			e.pinTerm(in, e.tb.Const(in.S.W, k.C))
+		}
+		if a.Op == OpSExt {
+			v := sext64(k.C, a.S.W)
+			lo, hi := -(int64(1) << uint(in.S.W-1)), (int64(1)<<uint(in.S.W-1))-1
+			if v >= lo && v <= hi {
+				e.pinTerm(in, e.tb.Const(in.S.W, uint64(v)))
+			}
+		}
+	}
+}
+
+// subst rewrites t with everything learnt on this path.
+func (e *Engine) subst(t *Term) *Term {
+	if t.IsConst() || len(e.pins) == 0 {
+		return t
+	}
+	if r, ok := e.substMemo[t.ID]; ok {
+		return r
+	}
+	var r *Term
+	if k, ok := e.pins[t.ID]; ok {
+		r = k
+	} else if len(t.A) == 0 {
+		r = t
+	} else {
+		args := make([]*Term, len(t.A))
+		changed := false
+		for i, a := range t.A {
+			args[i] = e.subst(a)
+			if args[i] != a {
+				changed = true
+			}
+		}
+		if !changed {
+			r = t
+		} else {
+			r = e.rebuild(t, args)
+		}
+	}
+	e.substMemo[t.ID] = r
+	return r
+}
+
+func (e *Engine) rebuild(t *Term, a []*Term) *Term {
+	tb := e.tb
+	switch t.Op {
+	case OpNot:
+		return tb.Not(a[0])
+	case OpAnd:
+		return tb.And(a[0], a[1])
+	case OpOr:
+		return tb.Or(a[0], a[1])
+	case OpIte:
+		return tb.Ite(a[0], a[1], a[2])
+	case OpEq:
+		return tb.Eq(a[0], a[1])
+	case OpUlt, OpUle, OpSlt, OpSle:
+		return tb.Cmp(t.Op, a[0], a[1])
+	case OpNeg:
+		return tb.Neg(a[0])
+	case OpBNot:
+		return tb.BNot(a[0])
+	case OpExtract:
+		return tb.Extract(a[0], t.Hi, t.Lo)
+	case OpZExt:
+		return tb.ZExt(a[0], t.S.W)
+	case OpSExt:
+		return tb.SExt(a[0], t.S.W)
+	case OpConcat:
+		return tb.Concat(a[0], a[1])
+	case OpUF:
+		return tb.UF(t.Name, t.S, a...)
+	}
+	return tb.Bin(t.Op, a[0], a[1])
 }
 
 func (e *Engine) evalBool(c *Term) bool {
@@ -229,6 +364,13 @@ func (e *Engine) emitAlt(d uint64, m Model) {
 func (e *Engine) Branch(c *Term) bool {
 	if c.IsConst() {
 		return c.C == 1
+	}
+	if !e.inReplay() {
+		c = e.subst(c)
+		if c.IsConst() {
+			e.pushTaken(c.C)
+			return c.C == 1
+		}
 	}
 	if e.inReplay() {
 		d := e.dec[e.dpos]
@@ -280,6 +422,10 @@ func (e *Engine) Concretize(t *Term, what string) uint64 {
 		e.pushTaken(d)
 		e.addPC(e.tb.Eq(t, e.constLike(t, d)))
 		return d
+	}
+	if st := e.subst(t); st.IsConst() {
+		e.pushTaken(st.C)
+		return st.C
 	}
 	e.refreshModel()
 	first := e.evalTerm(t, e.model)
@@ -365,6 +511,12 @@ func (e *Engine) Assume(c *Term) {
 		e.addPC(c)
 		return
 	}
+	if sc := e.subst(c); sc.IsConst() {
+		if sc.IsFalse() {
+			panic(pathEnd{"infeasible", "assume (folded)"})
+		}
+		return
+	}
 	e.refreshModel()
 	if e.evalBool(c) {
 		e.addPC(c)
@@ -407,7 +559,7 @@ func (e *Engine) Assert(label string, c *Term, msg string) {
 		e.addPC(c)
 		return
 	}
-	if c.IsTrue() {
+	if c.IsTrue() || e.subst(c).IsTrue() {
 		e.res.AssertsOK++
 		return
 	}
@@ -526,6 +678,8 @@ func (e *Engine) RunPath(entry *ssa.Function, item WorkItem) (res *PathResult) {
 	e.aborting = false
 	e.preempts = 0
 	e.pendingEnd, e.pendingPanic = nil, nil
+	e.pins = map[int]*Term{}
+	e.substMemo = map[int]*Term{}
 	e.sync = map[*Backing]map[int]*syncState{}
 	e.now = nil
 	e.ghost = map[string]Value{}
